@@ -449,6 +449,12 @@ LLCP_GARBAGE = ["random", "trunc", "agf-badlen", "agf-deep", "i-wrong-ns", "frmr
                 "agf-then-dm", "agf-then-disc", "agf-twice", "agf-then-cc"]
 
 
+SNI_DATA = {"sni-one": b"\x10", "sni-empty": b"", "sni-two": b"\x10\x00", "sni-five": b"\x10\x00\x00\x00\x00",
+            "sni-success": b"\x10\x81\x00\x00\x00\x00", "sni-continue": b"\x10\x80\x00\x00\x00\x00",
+            "sni-reject": b"\x10\xff\x00\x00\x00\x00", "sni-v2-continue": b"\x20\x00\x00\x00\x00\x00",
+            "sni-get-short": b"\x10\x01\x00\x00\x00\x03\x00\x00\x00"}
+
+
 def llcp_mutator(cls, rnd):
     P = pdu_mod
 
@@ -488,6 +494,11 @@ def llcp_mutator(cls, rnd):
             second = {"agf-then-dm": P.DisconnectedMode(p.dsap, p.ssap, 0), "agf-then-disc": P.Disconnect(p.dsap, p.ssap),
                       "agf-twice": p, "agf-then-cc": P.ConnectionComplete(p.dsap, p.ssap)}[cls]
             return bytes(P.encode(P.AggregatedFrame(0, 0, [p, second])))
+        if cls.startswith("sni-") and p is not None and p.name == "I":
+            # what the SNEP peer says INSTEAD of the message the protocol expects at this point (counted over the
+            # information PDUs only: first fragment, Continue, following fragments, response)
+            data = SNI_DATA[cls]
+            return bytes([d[0], d[1], d[2]]) + data          # header and sequence octet as received, payload by hand
         if cls.startswith("snep") and p is not None and p.name == "I":
             data = {"snep-short": b"\x10\x02\x00", "snep-huge-len": b"\x10\x02\xff\xff\xff\xff" + b"z" * 20,
                     "snep-bad-version": b"\xf0\x02\x00\x00\x00\x02ab"}[cls]
@@ -560,7 +571,9 @@ def run_mitm(cfg):
                                 r = mex(data, timeout)
                                 # count only the PDUs that carry something (not SYMM), so that the position does
                                 # not depend on how many idle exchanges the thread timing produced
-                                if r is not None and (bytes(r[:2]) != b"\x00\x00" or cfg.get("symm")):
+                                is_i = r is not None and len(r) >= 3 and ((r[0] & 3) << 2 | r[1] >> 6) == 0b1100
+                                if r is not None and (is_i if cfg["cls"].startswith("sni-") else
+                                                      (bytes(r[:2]) != b"\x00\x00" or cfg.get("symm"))):
                                     k = cnt[0]
                                     cnt[0] += 1
                                     if cfg["at"] <= k < cfg["at"] + cfg.get("burst", 1):
@@ -751,6 +764,16 @@ def gen_b(tier, seed):
                 n += 1
                 out.append(dict(id="llcp%d" % n, kind="mitm", layer="llcp", src=src, at=at, cls=cls, arg=0,
                                 seed=seed * 37 + n, server=rnd.choice("IT"), miu=rnd.choice([128, 248, 2175])))
+    # SNEP conversation level: the k-th information PDU the victim receives is replaced by a short / unexpected SNEP
+    # message (victim = server and victim = client, link MIU 128 so that PUT, GET and the GET response are fragmented)
+    for src in ("I", "T"):
+        for server in ("I", "T"):
+            for at in (range(0, 7) if quick else range(0, 12)):
+                for cls in sorted(SNI_DATA):
+                    for miu in ((128,) if quick else (128, 248)):
+                        n += 1
+                        out.append(dict(id="sni%d" % n, kind="mitm", layer="llcp", src=src, at=at, cls=cls, arg=0,
+                                        seed=seed * 53 + n, server=server, miu=miu))
     # the same PDU-level garbage against a handover server / client pair (records API of the client)
     for src in ("I", "T"):
         for at in ((0, 1, 2, 3, 4, 6) if quick else range(0, 16)):
@@ -780,10 +803,12 @@ def gen_b(tier, seed):
         if quick and k > 25 * 12:
             break
     if quick:
+        sni = [c for c in out if c["kind"] == "mitm" and c["cls"].startswith("sni-")]
+        out = [c for c in out if c not in sni]       # (the selection below is the one earlier versions made)
         rnd.shuffle(out)
         first = [c for c in out if c["kind"] == "mitm" and c["cls"].startswith("agf-t") and "burst" not in c and "svc" not in c]
         rest = [c for c in out if c["kind"] == "mitm" and c not in first]
-        keep = [c for c in out if c["kind"] == "card"] + first + rest[:900 - len(first)]
+        keep = [c for c in out if c["kind"] == "card"] + first + rest[:900 - len(first)] + sni
         out = keep
     return out
 
